@@ -87,3 +87,61 @@ pub fn mac_hex(hexkey: &str, canonical: &[u8]) -> Option<String> {
     let key = vcommon::sha::unhex(hexkey)?;
     Some(vcommon::sha::hex(&vcommon::sha::hmac_sha256(&key, canonical)))
 }
+
+
+/// Structured reference: what must be in the string-to-sign. The statement fixes the content
+/// (every header, every parameter) but not the relative order of parameters, so parameters are
+/// compared as a multiset and order-independence is checked separately (metamorphic).
+#[derive(Clone, Debug, PartialEq, Eq, PartialOrd, Ord)]
+pub struct Canon {
+    pub method: String,
+    pub body: Vec<u8>,
+    pub header_lines: Vec<Vec<u8>>, // sorted
+    pub path: String,
+    pub params: Vec<String>, // sorted multiset of rendered parameters
+}
+
+pub fn canon_ref(method: &str, body: &[u8], headers: &[(String, Vec<u8>)], target: &str) -> Canon {
+    let mut hs: Vec<Vec<u8>> = headers
+        .iter()
+        .filter(|(n, _)| !n.eq_ignore_ascii_case(AUTHZ))
+        .map(|(n, v)| {
+            let mut l = n.to_lowercase().into_bytes();
+            l.push(b':');
+            l.extend_from_slice(trim(v));
+            l
+        })
+        .collect();
+    hs.sort();
+    let (path, pairs) = split_target(target);
+    let mut params: Vec<String> = pairs.iter().map(|(k, v)| if v.is_empty() { k.clone() } else { format!("{k}={v}") }).collect();
+    params.sort();
+    Canon { method: method.to_string(), body: body.to_vec(), header_lines: hs, path, params }
+}
+
+/// Parse a string-to-sign produced by the subject, knowing the body length.
+pub fn canon_parse(s: &[u8], body_len: usize) -> Option<Canon> {
+    let nl = s.iter().position(|b| *b == b'\n')?;
+    let method = String::from_utf8_lossy(&s[..nl]).to_string();
+    let bstart = nl + 1;
+    if s.len() < bstart + body_len + 1 || s[bstart + body_len] != b'\n' {
+        return None;
+    }
+    let body = s[bstart..bstart + body_len].to_vec();
+    let rest = &s[bstart + body_len + 1..];
+    let mut lines: Vec<&[u8]> = rest.split(|b| *b == b'\n').collect();
+    if lines.len() < 2 {
+        return None;
+    }
+    let params_line = String::from_utf8_lossy(lines.pop()?).to_string();
+    let path = String::from_utf8_lossy(lines.pop()?).to_string();
+    let mut header_lines: Vec<Vec<u8>> = lines.iter().map(|l| l.to_vec()).collect();
+    let sorted_as_given = header_lines.clone();
+    header_lines.sort();
+    if sorted_as_given != header_lines {
+        return None; // header lines must be sorted
+    }
+    let mut params: Vec<String> = if params_line.is_empty() { vec![] } else { params_line.split('&').map(|x| x.to_string()).collect() };
+    params.sort();
+    Some(Canon { method, body, header_lines, path, params })
+}
